@@ -23,4 +23,6 @@ EXTRAS = [
     lambda rep, fb, tier: __import__("vf.rules.lints2", fromlist=["x"]).rule_record_rebuild_lookup(rep, fb),
     lambda rep, fb, tier: __import__("vf.rules.pyrules", fromlist=["x"]).rule_py_defassign(rep),
     lambda rep, fb, tier: __import__("vf.rules.lints3", fromlist=["x"]).rule_count_product(rep, fb),
+    lambda rep, fb, tier: __import__("vf.rules.pyrules3", fromlist=["x"]).rule_py_raw_axis(rep),
+    lambda rep, fb, tier: __import__("vf.rules.methodrules", fromlist=["x"]).rule_index_content(rep, fb),
 ]
